@@ -5,6 +5,7 @@ M  RawMC.tla      : Raw.tla (put_src(reparse) / raw node put / put_src(None) / r
                     clause conjunction of RawLaws), and the text operators against a character-wise reference.
 G  RawGen.tla     : TLC emits the complete case table of the flat-Python instance with the spec's expectation; every
                     row is executed on pfst; the spec's oracle is cross-checked against ast.parse row by row.
+   RawInlGen.tla  : TLC enumerates inline statement positions x rewrites of the simple statement into a compound one.
    RawHdrGen.tla  : TLC enumerates raw edits confined to block headers (every block kind with its elif/else/except/
                     finally tails, keyword changed to every other block keyword, several offsets) and builds the texts.
 V  RawTrace.tla   : every recorded call (table rows and random raw-edit histories over the corpus) is validated by TLC:
@@ -78,6 +79,21 @@ def _hdr_shard(args):
     for k, row in enumerate(rows):
         tid = base + k + 1
         tr, sc, bad = R.run_hdr_row(rec, tid, row)
+        if bad:
+            mism.append(bad)
+        traces.append(tr)
+        scripts[tid] = sc
+    return dict(rec.dump(), traces=traces), scripts, mism
+
+
+def _inl_shard(args):
+    shard_id, rows, base = args
+    from harness import c10_raw as R
+    rec = R.RawRecorder()
+    traces, scripts, mism = [], {}, []
+    for k, row in enumerate(rows):
+        tid = base + k + 1
+        tr, sc, bad = R.run_inl_row(rec, tid, row)
         if bad:
             mism.append(bad)
         traces.append(tr)
@@ -217,7 +233,9 @@ def run(ctx):
                 'G: RawGen.tla case table (text x rectangle x replacement with the spec-computed expectation) executed '
                 'row by row on pfst, spec oracle cross-checked with ast.parse; RawHdrGen.tla table of header-confined '
                 'edits (block kind x tail blocks x depth x target header x offsets in the header x keyword / header '
-                'replacement), rows the block grammar predicts invalid cross-checked with ast.parse. '
+                'replacement), rows the block grammar predicts invalid cross-checked with ast.parse; RawInlGen.tla '
+                'table of inline statement positions (one-line block bodies and clauses, ;-joined, backslash-continued, '
+                'nested) x target kind x rectangle x simple->compound / control rewrites, likewise. '
                 'V: histories of consecutive raw edits (put_src(reparse) via any node, raw node replace with/without '
                 '`to`/`pars`, put_src(None)+reparse(), reparse() of nodes) on corpus programs x layout variants, on a '
                 'family of inline statements after multi-byte text that hold multi-line nodes, and on '
@@ -268,6 +286,20 @@ def run(ctx):
     ht = threading.Thread(target=hdr_gen)
     ht.start()
 
+    # G (third table): inline statement positions x simple->compound rewrites, RawInlGen.tla; the quick tier takes
+    # the third of the rows selected by the seed (the spec's own deterministic sample), thorough all of them
+    inl = {}
+
+    def inl_gen():
+        try:
+            inl['rows'] = gen_table(ctx, f'RawInlGen_q{ctx.seed % 3}' if ctx.quick else 'RawInlGen_thorough',
+                                    module='RawInlGen')
+        except Exception as e:  # noqa: BLE001
+            inl['err'] = e
+
+    it = threading.Thread(target=inl_gen)
+    it.start()
+
     # G
     rows = gen_table(ctx, 'RawGen' if ctx.quick else 'RawGen_thorough')
     ctx.exhaustive = True
@@ -293,6 +325,19 @@ def run(ctx):
         raise common.Machinery(f'RawHdrGen.tla: {len(hm)} rows contradict CPython (program invalid, or a row predicted '
                                f'invalid by the block grammar parses), e.g. {hm[0]}')
     results += [(r[0], r[1]) for r in hres]
+    it.join()
+    if 'err' in inl:
+        raise inl['err']
+    irows = inl['rows']
+    per = max(1500, -(-len(irows) // 5))
+    ires = _pool_map(_inl_shard, [(k, irows[i:i + per], 30_000_000 + i) for k, i in enumerate(range(0, len(irows), per))])
+    im = [m for r in ires for m in r[2]]
+    if im:
+        raise common.Machinery(f'RawInlGen.tla: {len(im)} rows contradict CPython (program invalid, or a row predicted '
+                               f'invalid parses), e.g. {im[0]}')
+    results += [(r[0], r[1]) for r in ires]
+    ctx.extra['inline_table_rows'] = len(irows)
+    ctx.extra['inline_rows_predicted_invalid'] = sum(1 for r in irows if r[3])
     ctx.extra['header_table_rows'] = len(hrows)
     ctx.extra['header_rows_predicted_invalid'] = sum(1 for r in hrows if r[3])
     phase['tables_done_s'] = round(time.time() - t0, 1)
